@@ -22,6 +22,9 @@ def AgreesAt (hN : Nat → Nat) (V : Probe.Table) (d : Dirty) : Prop :=
   | .depSet b => find hN V (pidN d.pid) = some b
   | _ => d.diff.cleared = false ∧ find hN V (pidN d.pid) = none
 
+/-- the page needs a bucket -/
+def needsAlloc (d : Dirty) : Prop := d.diff.cleared = false ∧ (d.bucket = .fresh ∨ d.bucket = .depUnset)
+
 /-- the caller contract, page by page against the table as the earlier pages of the changeset leave it -/
 def ContractFrom (hN : Nat → Nat) (lim : Nat) : Probe.Table → List Dirty → Prop
   | _, [] => True
@@ -210,13 +213,17 @@ theorem chain_view {hash : Bytes → Nat} (hh : ∀ p, hash p < 2 ^ 64) {off : N
     ((a'.delta - a.delta : Int) =
       (occupied (viewOf a'.mm (pagesAfter P ds bs)) : Int) - (occupied (viewOf a.mm P) : Int)) ∧
     (∀ x ∈ pairs ds bs, find (hashN hash) (viewOf a'.mm (pagesAfter P ds bs)) (pidN x.2.pid) =
-      if x.2.diff.cleared then none else some x.1) := by
+      if x.2.diff.cleared then none else some x.1) ∧
+    (∀ k d, ds[k]? = some d → needsAlloc d →
+      (alloc (hashN hash) ALLOC_ATTEMPTS (run (hashN hash) ALLOC_ATTEMPTS (viewOf a.mm P) ((ds.take k).map opOf))
+        (pidN d.pid)).isSome = true) := by
   induction h with
   | nil a =>
     intro P hok _ _ _ _ _ _
-    refine ⟨rfl, hok, rfl, ?_, by simp [pagesAfter], ?_⟩
+    refine ⟨rfl, hok, rfl, ?_, by simp [pagesAfter], ?_, ?_⟩
     · intro x hx; simp [pairs] at hx
     · intro x hx; simp [pairs] at hx
+    · intro k d hk; simp at hk
   | @cons a a1 a' d ds b bs c cs s hch ih =>
     intro P hok hP hI hD hty hnd hct
     obtain ⟨hag, hct'⟩ := hct
@@ -228,10 +235,10 @@ theorem chain_view {hash : Bytes → Nat} (hh : ∀ p, hash p < 2 ^ 64) {off : N
       rw [s.buckets, ← hP]; split <;> simp
     simp only [List.map_cons, List.nodup_cons] at hnd
     rw [← hv] at hI1 hD1 hct'
-    obtain ⟨i1, i2, i3, i4, i5, i6⟩ := ih _ hok1 hP1 hI1 hD1 (fun d' hd' => hty d' (List.mem_cons_of_mem _ hd')) hnd.2 hct'
+    obtain ⟨i1, i2, i3, i4, i5, i6, i7⟩ := ih _ hok1 hP1 hI1 hD1 (fun d' hd' => hty d' (List.mem_cons_of_mem _ hd')) hnd.2 hct'
     have hn1 : 0 < (viewOf a1.mm (if d.diff.cleared then P else P.set b d.page)).n := by
       rw [viewOf_n hok1]; exact hok1.pos
-    refine ⟨?_, i2, ?_, ?_, ?_, ?_⟩
+    refine ⟨?_, i2, ?_, ?_, ?_, ?_, ?_⟩
     · simp only [pagesAfter, List.map_cons, run, List.foldl]
       rw [i1, hv]; rfl
     · simp only [metaRedo]; rw [i3, hbv]
@@ -297,5 +304,26 @@ theorem chain_view {hash : Bytes → Nat} (hh : ∀ p, hash p < 2 ^ 64) {off : N
           rw [← this]
           exact List.mem_map.2 ⟨d', hd', rfl⟩
       · exact i6 x hx
+    · -- every page that needs a bucket got one
+      intro k d' hk hna
+      cases k with
+      | zero =>
+        simp only [List.getElem?_cons_zero] at hk
+        injection hk with hk
+        subst hk
+        obtain ⟨hc', hbk⟩ := hna
+        have src := s.src
+        simp only [hc', Bool.false_eq_true, if_false] at src hfind
+        by_cases hcc : c = true
+        · simp only [hcc, if_true] at hfind
+          show (alloc _ _ (viewOf a.mm P) _).isSome = true
+          rw [hfind.2]; rfl
+        · exfalso
+          simp only [hcc, Bool.false_eq_true, if_false] at src
+          rcases src with e | e <;> rcases hbk with f | f <;> (rw [e] at f; cases f)
+      | succ k =>
+        have := i7 k d' (by simpa using hk) hna
+        rw [hv] at this
+        exact this
 
 end Nomt.PrepSync
